@@ -1833,6 +1833,14 @@ def memo_decorator_model(repo):
     return repo.memo('memo-decorator-model', build)
 
 
+def _chain_nodes(node):
+    out = []
+    while isinstance(node, Obj):
+        out.append(node)
+        node = node.attrs.get('value')
+    return out
+
+
 def assigns_model(repo):
     """SourceScope.assigns interpreted on a module scope (built by supp's constructor) that recorded attribute assignments
     through add_attr_assign: every assignment must be booked on the object its *own* receiver evaluates to."""
@@ -1863,12 +1871,25 @@ def assigns_model(repo):
                    (meth, attr_node('self', 'x', 12), 'v3'), (meth, attr_node('self', 'y', 13), 'v4'),
                    (meth, attr_node('unknown', 'z', 14), 'v5'), (meth2, attr_node('self', 'w', 20), 'v6'),
                    (meth2, attr_node('other', 'peer', 21), 'v7')]
+        # a chained target with the cursor inside its head: `self.pare|nt.child = v` is analysed as self.pare<mark>nt.child = v
+        mark = it.lookup_global('supp/util.py', 'SOURCE_MARK') if 'SOURCE_MARK' in it.module_env('supp/util.py') else '__supp_mark__'
+        head = attr_node('self', 'pare%snt' % mark, 30)
+        chain = Obj(st.blank, {'value': head, 'attr': 'child', 'lineno': 30, 'col_offset': 8}, 'self.pare<cursor>nt.child')
+        chain.astcls = 'Attribute'
+        entries.append((meth, chain, 'v8'))
         asked = []
         ctx = Obj(st.blank, {'evaluate': Native('evaluate', lambda it_, a, k: (asked.append(a[0]), recv.get(a[0].oid))[1])}, 'ctx')
         try:
             for sc, an, v in entries:
                 it.call(it.getattr(top, 'add_attr_assign'), [sc, an, Unknown(v)], {})
             res = it.call(it.getattr(top, 'assigns'), [ctx], {})
+            marked = [x for x in asked if isinstance(x, Obj) and any(
+                str(mark) in str(y.attrs.get('attr', '')) + str(y.attrs.get('id', '')) for y in _chain_nodes(x))]
+            out.append(('assigns-mark', 'no receiver that contains the cursor mark is evaluated', not marked,
+                        'assist analyses the text with the cursor mark spliced in; SourceScope.assigns evaluates the receiver %s of a recorded '
+                        'assignment although the mark is inside it: it evaluates to nothing and the assignment vanishes from the analysis of '
+                        'the marked text, while the analysis of the unmarked text has it (the proposals for the object differ)'
+                        % (marked[0].label if marked else ''), 'assigns: only receivers the cursor cannot be in (bare names) are evaluated'))
             got = {}
             for k, table in res.items():
                 for attr, mv in table.items():
